@@ -530,19 +530,6 @@ impl<C: IterConfig> BucketIter<C> {
 
             match segment_iter.next(limit).await? {
                 Some(commits) => {
-                    self.last_position = self
-                        .config
-                        .extract_last_position(
-                            commits
-                                .last()
-                                .expect("commits should not be empty if Some is returned"),
-                        )
-                        .map(|v| match self.dir {
-                            IterDirection::Forward => v + 1,
-                            IterDirection::Reverse => v.saturating_sub(1),
-                        })
-                        .unwrap_or(self.last_position);
-
                     // Apply filtering
                     let reverse = matches!(self.dir, IterDirection::Reverse);
                     let upper_bound = self.upper_bound;
@@ -562,6 +549,21 @@ impl<C: IterConfig> BucketIter<C> {
                                 .then_some(CommittedEvents::Single(event)),
                         })
                         .collect();
+
+                    // Where to resume in the next segment: taken from the events that belong to
+                    // this iterator (a mixed transaction ends with other streams' events).
+                    if let Some(next_position) = commits.last().and_then(|commit| match self.dir {
+                        IterDirection::Forward => match commit {
+                            CommittedEvents::Single(event) => Some(event),
+                            CommittedEvents::Transaction { events, .. } => events.last(),
+                        }
+                        .map(|event| self.config.position(event) + 1),
+                        IterDirection::Reverse => commit
+                            .first()
+                            .map(|event| self.config.position(event).saturating_sub(1)),
+                    }) {
+                        self.last_position = next_position;
+                    }
 
                     if commits.is_empty() {
                         warn!("transaction had no events for {}", self.config.id());
